@@ -454,6 +454,15 @@ impl C08Check {
             h.u64(u64::from(*f));
         }
         stats.nontrivial(h.finish());
+        {
+            // abstract state: (fault kind/policy, safe state expected, image after the fault, which drivers failed)
+            let mut sh = Fnv::new();
+            sh.str(&label).u64(u64::from(expect_safe)).bytes(rt.io().outputs());
+            for f in &expect_fail {
+                sh.u64(u64::from(*f));
+            }
+            stats.state(sh.finish());
+        }
         let dump0 = world::dump_storage(&rt);
         let mut image0 = rt.io().outputs().to_vec();
         let mut restarted = false;
@@ -560,7 +569,7 @@ impl Check for C08Check {
     }
     fn cases(&self, tier: Tier) -> u64 {
         match tier {
-            Tier::Quick => 1_200,
+            Tier::Quick => 4_000,
             Tier::Thorough => 40_000,
         }
     }
